@@ -1,5 +1,6 @@
 import RubyTi.Model.Reader
 import RubyTi.Model.Lexer
+import RubyTi.Model.Token
 
 /-! Line-protocol driver over the executable model definitions (core-only, built as `lean_exe`).
 One op per input line, one answer line per op; the answer format is the one
@@ -50,12 +51,65 @@ def opReader (args : String) : String :=
     out ++ s!"| {r.pos} {r.pos + r.rest.length} {f} {r.char} {csv r.history} | {csv r.pending}"
   | _ => "BAD-ARGS"
 
+def tkTag : Token.TK → Nat × List Nat
+  | .int => (257, [])
+  | .float => (261, [])
+  | .nil => (0, [])
+  | .bool => (260, [])
+  | .str s => (259, s)
+  | .ident n => (258, n)
+  | .cls n => (268, n)
+  | .const n => (272, n)
+  | .symbol n => (270, n)
+
+def dots (l : List Nat) : String := ".".intercalate (l.map toString)
+
+def tokOut (o : Token.ReadOut) (p : Token.PState) : String :=
+  match o with
+  | .readError => "X;"
+  | .assertPanic => "ASSERT-PANIC;"
+  | .eos => s!"E,{p.row},{p.errorRow};"
+  | .tok k sp =>
+    let (tag, n) := tkTag k
+    s!"{tag},{if sp then 1 else 0},{p.row},{p.errorRow},{dots n};"
+
+def strRunes (s : String) : List Nat := s.toList.map Char.toNat
+
+def opTok (args : String) : String :=
+  match args.splitOn "|" with
+  | [bcs, runes, calls] =>
+    let bc := ((bcs.splitOn ",").map (fun s => strRunes s.trimAscii.toString)).filter (· != [])
+    let p0 : Token.PState := { lx := { pending := Reader.nz (parseNats runes) } }
+    let step (acc : Option (Token.PState × String)) (c : String) : Option (Token.PState × String) :=
+      match acc with
+      | none => none
+      | some (p, out) =>
+        if c == "R" then
+          match Token.read bc p with
+          | none => none
+          | some (o, p') => some (p', out ++ tokOut o p')
+        else if c == "A" then
+          match Token.readAhead bc p with
+          | none => none
+          | some (o, p') => some (p', out ++ tokOut o p')
+        else if c == "U" then some (Token.unget p, out)
+        else if c == "S" then
+          match Token.skip p with
+          | none => none
+          | some p' => some (p', out)
+        else some (p, out)
+    match (calls.splitOn " ").foldl step (some (p0, "")) with
+    | none => "PANIC unexpected end of input"
+    | some (_, out) => out
+  | _ => "BAD-ARGS"
+
 def dispatch (line : String) : String :=
   if line.isEmpty then "" else
   let name := (line.splitOn " ").headD ""
   let args := (line.drop (name.length + 1)).toString
   if name == "lex" then opLex args
   else if name == "reader" then opReader args
+  else if name == "tok" then opTok args
   else "BAD-OP " ++ name
 
 partial def loop (h : IO.FS.Stream) (out : IO.FS.Stream) : IO Unit := do
